@@ -293,7 +293,8 @@ SIGS = {
     "ECHO": ("K", "-"), "SELECT": ("I", "-"),
 }
 NON_NUMERIC = [b"abc", b"", b"1x", b"--1", b"1 2", b"0x10", b"9223372036854775808", b"-9223372036854775809", b"99999999999999999999999", b"1.5", b"1e3"]
-NON_FLOAT = [b"abc", b"", b"1x", b"--1", b"1 2", b"nan", b"NaN", b"(", b"1.2.3", b"-"]
+NON_FLOAT = [b"abc", b"", b"1x", b"--1", b"1 2", b"nan", b"NaN", b"(", b"1.2.3", b"-",
+             b"((1", b"(((2.5", b"( 1", b"(-", b"(1(", b"1(", b")1", b"((inf", b"(+(1", b" 1", b"1 ", b"\t1", b"+-1", b"1e", b"0x", b"_1", b"1_0", b"(nan"]
 
 def out_of_range(rng, lim):
     """in-int64 values above lim: the boundary, powers of ten and two (products that wrap to positive as well as negative), random"""
